@@ -28,9 +28,9 @@ def candidates(sc):
     return ops_candidates(sc, "ops")
 
 
-def _spec(r, nsess, tmax):
+def _spec(r, nsess, tmax, tmin=0):
     typ = r.choice(["Plugin", "Plugin", "Unplug", "Unplug", "Recompute", "Event"])
-    d = {"type": typ, "ts": r.randint(0, tmax)}
+    d = {"type": typ, "ts": r.randint(tmin, tmax)}
     if typ in ("Plugin", "Unplug"):
         d["sess"] = "s%d" % r.randrange(nsess)
     return d
@@ -40,24 +40,25 @@ def gen(rs, tier):
     r = sub(rs, "ops")
     nsess = r.randint(1, 4)
     tmax = r.choice([2, 4, 6, 10, 30])
-    init = [_spec(r, nsess, tmax) for _ in range(r.choice([0, 0, 1, 3, 8]))] if r.random() < 0.6 else None
+    tmin = r.choice([0, 0, 0, 0, -3, -40])      # sessions dated before the simulation start have negative period indices
+    init = [_spec(r, nsess, tmax, tmin) for _ in range(r.choice([0, 0, 1, 3, 8]))] if r.random() < 0.6 else None
     n = r.randint(1, 60 if tier == "thorough" else 40)
     ops = []
     for _ in range(n):
         k = r.random()
         if k < 0.3:
-            ops.append({"op": "add", "e": _spec(r, nsess, tmax)})
+            ops.append({"op": "add", "e": _spec(r, nsess, tmax, tmin)})
         elif k < 0.37:
-            ops.append({"op": "add_many", "es": [_spec(r, nsess, tmax) for _ in range(r.randint(0, 5))]})
+            ops.append({"op": "add_many", "es": [_spec(r, nsess, tmax, tmin) for _ in range(r.randint(0, 5))]})
         elif k < 0.4:
             # fault inside a bulk insert: one element of the batch is not an event (None); the call fails part-way, the caller
             # catches the error and carries on with the queue
-            es = [_spec(r, nsess, tmax) for _ in range(r.randint(1, 5))]
+            es = [_spec(r, nsess, tmax, tmin) for _ in range(r.randint(1, 5))]
             ops.append({"op": "add_many_fault", "es": es, "at": r.randint(0, len(es))})
         elif k < 0.55:
             ops.append({"op": "get"})
         elif k < 0.72:
-            ops.append({"op": "get_current", "t": r.randint(-1, tmax + 1)})
+            ops.append({"op": "get_current", "t": r.randint(tmin - 1, tmax + 1)})
         elif k < 0.78:
             ops.append({"op": "len"})
         elif k < 0.83:
